@@ -155,9 +155,10 @@ func zzH_C18u() {
 	c.Scheduling = Scheduling(vChoose("policy", 3))
 	vSetClockStep(1)
 	vSetTimerBudget(vParam("c18.ticks", 3))
-	c.Update("a", "b")
+	first := [][]string{{"a", "b"}, {"a"}, {"c", "b", "a"}}[vChoose("first", 3)]
+	c.Update(first...)
 	vQuiesce()
-	second := [][]string{{"b", "a"}, {"a", "b"}, {"a"}, {"b", "c"}}[vChoose("second", 4)]
+	second := [][]string{{"b", "a"}, {"a", "b"}, {"a"}, {"b", "c"}, {"a", "b", "c"}}[vChoose("second", 5)]
 	c.Update(second...)
 	p0 := len(rt.pings)
 	vQuiesce()
@@ -183,6 +184,39 @@ func zzH_C18u() {
 		if len(rt.calls) == k+1 {
 			vAssert(zzSet(second)[rt.calls[k]], "routed-to-current-target")
 		}
+	}
+	c.Close()
+	vReach("end")
+}
+
+// zzH_C16p: Update while health probes of the previous targets are still in flight (a probe takes
+// time). After Update returns, a call must only be routed to a target of the new list, whatever the
+// order in which old and new probes finish.
+func zzH_C16p() {
+	rt := &zzRT{up: map[string]bool{"a": true, "b": true, "c": true}, slowPing: true}
+	c := NewClient(nil)
+	c.Transport = rt
+	c.Scheduling = Scheduling(vChoose("policy", vParam("c16p.policies", 1)))
+	vSetClockStep(1)
+	vSetTimerBudget(vParam("clt.ticks", 2))
+	c.Update("a", "b")
+	for i := 0; i < vChoose("progress", 3); i++ {
+		vYield() // the detector and its probes make some progress
+	}
+	second := [][]string{{"c"}, {"b", "c"}, {"b"}}[vChoose("second", 3)]
+	c.Update(second...)
+	n := len(rt.calls)
+	err := c.Call("S.M", nil, nil)
+	if len(rt.calls) > n {
+		vAssert(zzSet(second)[rt.calls[n]], "routed-to-current-target")
+	} else {
+		vAssert(err == ErrTimeout || err == ErrDial, "unrouted-call-fails-with-timeout")
+	}
+	vQuiesce()
+	n = len(rt.calls)
+	err = c.Call("S.M", nil, nil)
+	if len(rt.calls) > n {
+		vAssert(zzSet(second)[rt.calls[n]], "routed-to-current-target")
 	}
 	c.Close()
 	vReach("end")
